@@ -277,6 +277,53 @@ func driveNum(plan []M, out *Out, _ []string) {
 			case "string":
 				rankLine(out, ty, stringSample, a, b, cc, "", "", false, nil)
 			}
+		case "fsum":
+			// floating-point / complex Sum and Product: the built-in + and * are the primitives of the definition, so the
+			// left-to-right fold with the built-in operators is recorded next to the library's result (as IEEE bit patterns)
+			idx := ints(c, "v")
+			e := M{"op": "fsum", "ty": ty, "v": idx}
+			e["panic"] = protect(func() {
+				switch ty {
+				case "float64":
+					xs := make([]float64, len(idx))
+					for i, j := range idx {
+						xs[i] = fsumSample[j]
+					}
+					ls, lp := 0.0, 1.0
+					for _, x := range xs {
+						ls += x
+						lp *= x
+					}
+					e["sum"], e["lrsum"] = bits64(typ.Sum(xs...)), bits64(ls)
+					e["prod"], e["lrprod"] = bits64(typ.Product(xs...)), bits64(lp)
+				case "float32":
+					xs := make([]float32, len(idx))
+					for i, j := range idx {
+						xs[i] = float32(fsumSample[j])
+					}
+					var ls, lp float32 = 0, 1
+					for _, x := range xs {
+						ls += x
+						lp *= x
+					}
+					e["sum"], e["lrsum"] = bits64(float64(typ.Sum(xs...))), bits64(float64(ls))
+					e["prod"], e["lrprod"] = bits64(float64(typ.Product(xs...))), bits64(float64(lp))
+				case "complex128":
+					xs := make([]complex128, len(idx))
+					for i, j := range idx {
+						xs[i] = complex(fsumSample[j], fsumSample[(j+3)%len(fsumSample)])
+					}
+					var ls, lp complex128 = 0, 1
+					for _, x := range xs {
+						ls += x
+						lp *= x
+					}
+					su, pr := typ.Sum(xs...), typ.Product(xs...)
+					e["sum"], e["lrsum"] = append(bits64(real(su)), bits64(imag(su))...), append(bits64(real(ls)), bits64(imag(ls))...)
+					e["prod"], e["lrprod"] = append(bits64(real(pr)), bits64(imag(pr))...), append(bits64(real(lp)), bits64(imag(lp))...)
+				}
+			})
+			out.Emit(e)
 		case "util":
 			name, kind, v := str(c, "name"), str(c, "kind"), ints(c, "v")
 			e := M{"op": "util", "name": name, "kind": kind, "v": v, "cond": boolean(c, "cond"), "r": 0, "rb": false}
@@ -353,4 +400,17 @@ func must(err error) {
 	if err != nil {
 		panic(err)
 	}
+}
+
+// values whose sums round, cancel or overflow depending on the order of the additions (no NaN can arise from sums of
+// these unless an infinity is produced first; lines whose reference fold is NaN are dropped by the plan generator)
+var fsumSample = []float64{0, 1, -1, 1e16, -1e16, 0.1, 0.2, 0.3, 1e-16, math.MaxFloat64, -math.MaxFloat64, 3, 1e308, 0.5}
+
+// bits64 splits an IEEE-754 bit pattern into four 16-bit pieces (TLC integers are 32-bit).
+func bits64(f float64) []int {
+	b := math.Float64bits(f)
+	if f != f {
+		return []int{-1, -1, -1, -1} // NaN: excluded by the property
+	}
+	return []int{int(b >> 48), int(b >> 32 & 0xffff), int(b >> 16 & 0xffff), int(b & 0xffff)}
 }
